@@ -115,6 +115,14 @@ def gen(force=False):
         L.append('def %s_partflagmask : List Nat := [%s]' % (mm, ', '.join(d['partflagmask'][0].split())))
         L.append('def %s_flags : List Nat := [%s]' % (mm, ', '.join(d['flags'][0].split())))
         L.append('')
+    # literal tables that have no public lookup: transcribed from the source text (the only source-text
+    # extraction; everything else above is observed by running the tree)
+    utf = open(os.path.join(REPO, 'src', 'url_utf.cpp')).read()
+    for cname, lname in (('k_U8_LEAD3_T1_BITS', 'u8Lead3T1Bits'), ('k_U8_LEAD4_T1_BITS', 'u8Lead4T1Bits')):
+        m = re.search(cname + r'\[16\]\s*=\s*\{([^}]*)\}', utf)
+        vals = [str(int(x.strip(), 0)) for x in m.group(1).split(',') if x.strip()] if m else []
+        L.append('def %s : List Nat := [%s]' % (lname, ', '.join(vals)))
+    L.append('')
     i = info['idna']
     L.append('def idnaOptions : Nat := %s' % i['options'])
     L.append('def idnaFatalMask : Nat := %s' % i['fatal'])
